@@ -257,7 +257,7 @@ struct VDen {
         std::fprintf(out.f, "{\"e\":\"value_inaccessible\",\"id\":%d,\"sig\":\"none\"}\n", id);
     }
 
-    static void uses(Out& out, int id, DV& obj, const A& dl, Rng& r) {
+    static void uses(Out& out, int id, DV& obj, const A& dl, Rng& r, std::size_t stride = 1) {
         // numerators: lane j walks through the adversarial set of its own divisor
         std::vector<std::vector<T>> ns(N);
         std::size_t mx = 0;
@@ -269,7 +269,7 @@ struct VDen {
             mx = std::max(mx, ns[j].size());
         }
         value_event(out, id, obj);
-        for (std::size_t i = 0; i < mx; ++i) {
+        for (std::size_t i = 0; i < mx; i += stride) {
             A n;
             bool undef = false;
             for (unsigned j = 0; j < N; ++j) {
@@ -333,6 +333,9 @@ struct VDen {
         Rng r(seed * 131 + W * 2 + (K == 'i') + N * 1000);
         set_label(tn, "denominator");
         std::vector<T> D = divisors<T>(r);
+        alignas(DV) static unsigned char prev_store[sizeof(DV)];
+        DV* prev = nullptr;
+        bool have_prev = false;
         // (a) a different divisor in every lane
         for (std::size_t base = 0; base < D.size(); base += N) {
             A dl;
@@ -346,6 +349,25 @@ struct VDen {
             std::fprintf(out.f, "{\"e\":\"new\",\"id\":%d,\"k\":\"%c\",\"w\":%u,\"d\":%s,\"sig\":\"%s\"}\n", id, K, unsigned(W), flat(dl.data(), N * W).c_str(), signame(sg));
             if (sg) continue;
             uses(out, id, *obj, dl, r);
+            // a denominator is a value: copy construction, and copy assignment over an object that held other divisors
+            {
+                alignas(DV) unsigned char cstore[sizeof(DV)];
+                DV* cp = nullptr;
+                int sg2 = guarded([&] { cp = new (cstore) DV(*obj); });
+                int idc = out.next_id++;
+                std::fprintf(out.f, "{\"e\":\"copy\",\"id\":%d,\"from\":%d,\"form\":\"ctor\",\"sig\":\"%s\"}\n", idc, id, signame(sg2));
+                if (!sg2) uses(out, idc, *cp, dl, r, 16);
+                if (have_prev) {
+                    sg2 = guarded([&] { *prev = *obj; });
+                    int idp = out.next_id++;
+                    std::fprintf(out.f, "{\"e\":\"copy\",\"id\":%d,\"from\":%d,\"form\":\"assign\",\"sig\":\"%s\"}\n", idp, id, signame(sg2));
+                    if (!sg2) uses(out, idp, *prev, dl, r, 8);
+                }
+                if (!have_prev || ((base / N) & 1)) {
+                    sg2 = guarded([&] { prev = new (prev_store) DV(*obj); });
+                    have_prev = sg2 == 0;
+                }
+            }
         }
         broadcast_part(out, D, r, K);
     }
